@@ -1,10 +1,26 @@
 """C06 check specification (see lib/specs/__init__.py for the field reference)."""
 
+def _borrow(pid, sink, judge):
+    """A harness part of another property, judged by that property's judge (coq_import)."""
+    from importlib import import_module
+    sp = import_module('specs.' + pid).SPEC
+    for p in sp['parts']:
+        if sink in p['sinks']:
+            q = dict(p)
+            q['sinks'] = {sink: judge}
+            q['coq_import'] = sp['coq_check']
+            return q
+    raise KeyError((pid, sink))
+
+
 SPEC = {
     'id': 'C06',
     'title': 'RMN signature collection meets both thresholds under every response schedule',
     'coq_check': 'C06_check',
     'parts': [
+        # the observer sets the controller is handed come from the RMNHome observer bitmaps: bitmap -> observer set and
+        # the conversion of the on-chain config (parts of C18, judged by C18's judges)
+        _borrow('C18', 'C18_bitmap', 'bm18_judge'), _borrow('C18', 'C18_conv', 'conv18_judge'),
         {'pkg': 'commit/merkleroot/rmn', 'pkgname': 'rmn',
          'src': 'harness/commit/merkleroot/rmn/c06_test.go', 'test': 'TestVerif_C06',
          'sinks': {'C06_sched': 'c06_judge'}, 'n': {'quick': 1500, 'thorough': 15000}},
